@@ -21,6 +21,8 @@ def one(sid, tier, update):
     dst = os.path.join(ROOT, "seeded", sid)
     meta = json.load(open(os.path.join(dst, "meta.json")))
     prop = meta["property"]
+    if meta.get("out_of_domain"):
+        return sid, prop, "caught", "(not expected to be caught: outside the quantified domain — " + meta["out_of_domain"][:80] + ")"
     if meta.get("obsolete"):
         return sid, prop, "caught", "(obsolete: no longer a violation on the current tree — " + meta["obsolete"][:80] + ")"
     d = tempfile.mkdtemp(prefix="rvreseed_", dir="/tmp")
